@@ -115,9 +115,7 @@ Proof. exact float_routing_all. Qed.
 (** The model prescribes that two printings of one value agree. *)
 Theorem C03_print_deterministic : forall c,
   match model c with OOk _ _ _ _ det => det = true | _ => True end.
-Proof. intros [via pc v orc badre]. unfold model. destruct (vexists long_int v); [exact I|].
-  destruct (read_text _ _ _ _ _ _ _) as [[|b r]| |]; try exact I.
-  destruct ((via =? 1) && value_eqb false b (VKw None kw_eofthrow)); exact I. Qed.
+Proof. exact print_deterministic_model. Qed.
 
 (** A value using every constructor, with nested metadata, satisfies the guard under all print
     settings on, and round-trips (with the CPython functions instantiated by the identity). *)
